@@ -64,7 +64,13 @@ func denoteExpected(code string, occ []string) interface{} {
 	return nil
 }
 
-func checkC01Denote(c *Ctx, n int) {
+func checkC01Denote(c *Ctx, n int) { denoteRun(c, n, false) }
+
+// checkC08Scope: the same construction, on the spellings that several commands of the chain declare
+// (the innermost declaration must win) and on options of commands outside the chain (unknown).
+func checkC08Scope(c *Ctx, n int) { denoteRun(c, n, true) }
+
+func denoteRun(c *Ctx, n int, scope bool) {
 	p := defaultProfile
 	p.BadDecl, p.Required, p.Choices, p.Defaults, p.Env, p.InitVals, p.PosArgs = 0, 0, 0, 0, 0, 0, 0
 	p.Exec, p.Handlers = false, false
@@ -73,13 +79,20 @@ func checkC01Denote(c *Ctx, n int) {
 	p.Utf = 0.3
 	p.OnlyTypes = []string{"str", "str", "int", "bool", "bool", "Lstr", "Lint", "Mstr,str"}
 	p.OptsMask = flags.PassDoubleDash | flags.PrintErrors
+	prop := "C01"
+	if scope {
+		prop = "C08"
+		p.MaxCmdDepth = 3
+		p.MaxFields = 6
+	}
 	r := c.Rng
 	for i := 0; i < n; i++ {
 		g := &gen{r: r, p: p}
 		cs := g.genCase()
 		cs.Env = nil
 		nilCmd := ""
-		if g.chance(0.06) && cs.Build[0].Struct != nil {
+		expectUnknown := ""
+		if !scope && g.chance(0.06) && cs.Build[0].Struct != nil {
 			// a command declared through a nil pointer field (D20)
 			for fi := range cs.Build[0].Struct.Fields {
 				f := &cs.Build[0].Struct.Fields[fi]
@@ -106,8 +119,11 @@ func checkC01Denote(c *Ctx, n int) {
 				spelling string // "--long" or "-x"
 			}
 			count := map[string]int{}
+			holder := map[string]*flags.Option{} // the innermost command's option of that spelling
+			ambiguous := map[string]bool{}       // one command declares the spelling twice
 			var cands []cand
 			for _, cmd := range chain {
+				here := map[string]int{}
 				for _, grp := range allGroups(cmd) {
 					for _, o := range grp.Options() {
 						if o.Field().Name == "ShowHelp" {
@@ -115,19 +131,34 @@ func checkC01Denote(c *Ctx, n int) {
 						}
 						if ln := o.LongNameWithNamespace(); ln != "" && !strings.ContainsAny(ln, "=") && !strings.HasPrefix(ln, "-") {
 							count["--"+ln]++
+							here["--"+ln]++
+							holder["--"+ln] = o
 							cands = append(cands, cand{o, "--" + ln})
 						}
 						if o.ShortName != 0 && o.ShortName != '-' && o.ShortName != '=' {
 							count["-"+string(o.ShortName)]++
+							here["-"+string(o.ShortName)]++
+							holder["-"+string(o.ShortName)] = o
 							cands = append(cands, cand{o, "-" + string(o.ShortName)})
 						}
+					}
+				}
+				for sp, k := range here {
+					if k > 1 {
+						ambiguous[sp] = true
 					}
 				}
 			}
 			k := r.Intn(5)
 			for j := 0; j < k && len(cands) > 0; j++ {
 				cd := cands[r.Intn(len(cands))]
-				if count[cd.spelling] != 1 {
+				if scope {
+					// the innermost declaration of the spelling is the one the occurrence must reach
+					if ambiguous[cd.spelling] || (count[cd.spelling] == 1 && r.Intn(3) != 0) {
+						continue
+					}
+					cd.o = holder[cd.spelling]
+				} else if count[cd.spelling] != 1 {
 					continue
 				}
 				code := real.optCode(cd.o)
@@ -201,6 +232,36 @@ func checkC01Denote(c *Ctx, n int) {
 			argv = append(argv, s.Name)
 			chain = append(chain, s)
 		}
+		if scope && r.Intn(4) == 0 {
+			// an option of a command that is not on the path, under a spelling nothing on the path declares
+			inChain := map[*flags.Command]bool{}
+			for _, cmd := range chain {
+				inChain[cmd] = true
+			}
+			declared := map[string]bool{}
+			for _, cmd := range chain {
+				for _, grp := range allGroups(cmd) {
+					for _, o := range grp.Options() {
+						declared["--"+o.LongNameWithNamespace()] = true
+						declared["-"+string(o.ShortName)] = true
+					}
+				}
+			}
+			for _, cmd := range real.commandsPreorder() {
+				if inChain[cmd] || expectUnknown != "" {
+					continue
+				}
+				for _, grp := range allGroups(cmd) {
+					for _, o := range grp.Options() {
+						ln := o.LongNameWithNamespace()
+						if expectUnknown == "" && ln != "" && !declared["--"+ln] && !strings.ContainsAny(ln, "=%") && !strings.HasPrefix(ln, "-") && o.Field().Name != "ShowHelp" {
+							expectUnknown = ln
+							argv = append(argv, "--"+ln+"=v")
+						}
+					}
+				}
+			}
+		}
 		skip := false
 		for _, a := range argv {
 			if strings.Contains(a, "%") {
@@ -208,7 +269,7 @@ func checkC01Denote(c *Ctx, n int) {
 				_ = a
 			}
 		}
-		if skip || len(den) == 0 {
+		if skip || (len(den) == 0 && expectUnknown == "") {
 			continue
 		}
 		cs.Ops = []Op{{Kind: "parse", Args: argv}}
@@ -222,11 +283,24 @@ func checkC01Denote(c *Ctx, n int) {
 			for _, o := range parseBlocks(cr) {
 				obs = o
 			}
-			if obs.panic != "" || obs.errKind != "ok" {
-				c.Class("c01/denote: parse did not succeed (not judged)")
+			if expectUnknown != "" && obs.panic == "" {
+				c.Class("c08/scope: option of a command outside the path")
+				want := "unknown flag `" + expectUnknown + "'"
+				// (the message is masked when a token of the line contains '%')
+				ok := obs.errKind == "flags" && obs.errType == int(flags.ErrUnknownFlag) && (obs.masked || obs.errMsg == want)
+				in := map[string]interface{}{"case": cs.Description, "argv": argv, "out_of_scope_option": "--" + expectUnknown}
+				if !ok {
+					in["case_file"] = c.saveCase(cr)
+				}
+				c.Check("option-of-a-command-outside-the-path-is-unknown", ok, "C08:out-of-scope-accepted", in,
+					fmt.Sprintf("%s type %d %q", obs.errKind, obs.errType, obs.errMsg), "ErrUnknownFlag: "+want)
 				return
 			}
-			c.Class("c01/denote: judged")
+			if obs.panic != "" || obs.errKind != "ok" {
+				c.Class(strings.ToLower(prop) + "/denote: parse did not succeed (not judged)")
+				return
+			}
+			c.Class(strings.ToLower(prop) + "/denote: judged")
 			if nilCmd != "" {
 				c.Class("c01/denote: a command declared through a nil pointer field")
 			}
@@ -274,7 +348,7 @@ func checkC01Denote(c *Ctx, n int) {
 				if !ok {
 					in["case_file"] = c.saveCase(cr)
 				}
-				c.Check("field-holds-what-the-command-line-denotes", ok, "C01:denotation", in, fmt.Sprintf("%#v", got), fmt.Sprintf("%#v", want))
+				c.Check("field-holds-what-the-command-line-denotes", ok, prop+":denotation", in, fmt.Sprintf("%#v", got), fmt.Sprintf("%#v", want))
 			}
 			// options that did not occur hold their zero value (nothing was stored, no defaults declared)
 			for fn, o := range byField {
@@ -287,7 +361,7 @@ func checkC01Denote(c *Ctx, n int) {
 				}
 				zero := v.IsZero() || ((v.Kind() == reflect.Slice || v.Kind() == reflect.Map) && v.Len() == 0)
 				if !zero {
-					c.Check("option-not-named-is-untouched", false, "C01:untouched", map[string]interface{}{"case": cs.Description, "argv": argv, "option": o.String(), "field": fn, "case_file": c.saveCase(cr)}, fmt.Sprintf("%#v", o.Value()), "zero value")
+					c.Check("option-not-named-is-untouched", false, prop+":untouched", map[string]interface{}{"case": cs.Description, "argv": argv, "option": o.String(), "field": fn, "case_file": c.saveCase(cr)}, fmt.Sprintf("%#v", o.Value()), "zero value")
 				} else {
 					c.Check("option-not-named-is-untouched", true, "", nil, "", "")
 				}
